@@ -45,6 +45,11 @@ for fid, commit, q, what in [
     ("call-trailing-comma", "c272091", "$[?count(@.a,)==1]", "$[?count(@.a,)==1] was accepted"),
 ]:
     fixed("C04", fid, commit, what, hole(q, "reject"))
+# ---- C02
+fixed("C02", "nested-root-scope", "8bec8e1", "'$' inside a filter nested in a relative query resolved against the outer filter's current child: $[?@[?$[0].a == @]] on [{b: false, a: null}] selected nothing",
+      {"module": "vtools.props.c02", "func": "r_filter", "args": {"query": "$[?@[?$[0].a == @]]", "doc": [{"b": False, "a": None}]}})
+fixed("C02", "bare-current-truthiness", "1a173fd", "$[?@] dropped children whose value is 0, false or "" (Python truthiness of the bare value)",
+      {"module": "vtools.props.c02", "func": "r_filter", "args": {"query": "$[?@]", "doc": [0, False, "", None, [], {}]}})
 # ---- C03
 fixed("C03", "astral-shorthand", "0e160c5", "valid non-BMP member-name-shorthand ($.\U0001F600) was refused (RE_PROPERTY stopped at U+FFFF)", hole("$.\U0001F600", "accept"))
 fixed("C03", "zero-with-exponent", "fa7c6b5", "the valid number literals 0e1 / 0E-2 were refused by the leading-zero test", hole("$[?@.a==0e1]", "accept"))
